@@ -12,6 +12,7 @@ import (
 	"os/exec"
 	"strconv"
 	"strings"
+	"syscall"
 	"time"
 )
 
@@ -68,6 +69,7 @@ func (s *Solver) start() {
 	case CVC5:
 		cmd = exec.Command("cvc5", "--incremental", "--produce-models", "--fp-exp", fmt.Sprintf("--tlimit-per=%d", s.timeoutMs), "--lang=smt2")
 	}
+	cmd.SysProcAttr = &syscall.SysProcAttr{Pdeathsig: syscall.SIGKILL}
 	in, _ := cmd.StdinPipe()
 	out, _ := cmd.StdoutPipe()
 	cmd.Stderr = nil
